@@ -1,18 +1,20 @@
 """NFT: C14 (NFT.tla / NFTTrace.tla / harness/cmd/nft)."""
-from props import ModuleCheck, T
+from props import ModuleCheck, T, bundled
 
 NFT_CLAUSES = ["C14_Owner", "C14_ActOnlyOwner", "C14_OthersUntouched", "C14_MintRestricted",
                "C14_UpdateRestricted", "C14_ClassHandover", "C14_Ids", "C14_Supply", "Rejected_NoEffect"]
 
 NFT_RND = T([dict(n=10, len=30, procs=8, cfg="users=3"), dict(n=6, len=40, procs=3, cfg="users=4")],
             [dict(n=80, len=40, procs=10, cfg="users=3"), dict(n=50, len=60, procs=4, cfg="users=4")])
+# multi-message transactions (runs of one signer's messages delivered as one real transaction)
+bundled(NFT_RND)
 NFT_GEN = T([dict(cfg="GEN_NFT.cfg", num=10, depth=16, seeds=8)],
             [dict(cfg="GEN_NFT.cfg", num=60, depth=20, seeds=14)])
 NFT_MC = T([dict(cfg="MC_NFT.cfg", timeout=900, heap="4g")], [dict(cfg="MC_NFT_big.cfg", timeout=3400, heap="4g")])
 NFT_SCN = [dict(file="scenarios/nft_coverage.ndjson", cfg="users=3")]
 
 # histories recorded (VERIF_RECORD_DIR) for the cross-module checks C11 / C12
-RECORD = [dict(binary="nft", n=T(3, 12), len=30, cfg="users=3")]
+RECORD = [dict(binary="nft", n=T(3, 12), len=30, cfg="users=3" + ",bundle=30")]
 
 PROPS = {
     "C14": ModuleCheck("nft", "NFT.tla", "NFTTrace.tla", "NFTTrace.cfg", NFT_CLAUSES,
